@@ -7,5 +7,5 @@ cmake -G Ninja -S ${VERIF_REPO:-/repo} -B "$B" -DCMAKE_C_FLAGS=-Wno-error >/dev/
 cmake --build "$B" -j16 >/dev/null
 ctest --test-dir "$B" -j8 --timeout 900
 rc=$?
-rm -rf "$B"
+[ -n "$KEEP_BASELINE" ] || rm -rf "$B"
 exit $rc
